@@ -3,7 +3,7 @@
 From Coq Require Import List ZArith NArith Bool String.
 From GrolGen Require Import Gen_Consts.
 From GrolModel Require Import Ast Lexer Parser Printer AstWf Frontend.
-From GrolProofs Require Import Parser_proofs Linemode_sim Linemode_lex.
+From GrolProofs Require Import Parser_proofs Parser_term Linemode_sim Linemode_lex Parser_noeol Linemode_exact.
 Import ListNotations.
 
 Definition no_numbers : numconv := mkConv (fun _ => None) (fun _ => None).
@@ -12,15 +12,17 @@ Definition src (s : string) : bytes := bytes_of_string s.
 (* (1) For a complete program line mode yields the same tree as file mode.  PROVED on the model of the
    whole front end (lexer, parser) for every source text and number oracle: whenever the line-mode parse is
    clean (no error, no continuation) and line mode leaves no string open, the file-mode parse is clean
-   with the same tree ([fnode] renames the type of end-marker tokens inside the tree: a clean tree has
-   none, which the harness checks by comparing both trees exactly on every complete program).
-   The hypothesis on open strings is what "complete" means for the lexer; the converse direction is false
-   by design (file mode accepts an unterminated block at end of input, line mode asks for more). *)
+   with the SAME tree.  Three parts: the two lexer modes produce the same tokens up to the end marker
+   (Linemode_lex), the parser runs in lockstep on both streams up to the renaming of the end marker
+   (Linemode_sim), and a clean tree contains no end-marker token, so the renaming is the identity on it
+   (Parser_noeol).  The hypothesis on open strings is what "complete" means for the lexer; the converse
+   direction is false by design (file mode accepts an unterminated block at end of input, line mode asks
+   for more). *)
 Theorem C15_linemode_same_tree : forall conv s r,
   unterminated true s = false ->
   front_parse conv true s = POk r -> clean r = true ->
-  front_parse conv false s = POk (mkPres (map (option_map fnode) (pr_tree r)) [] false (pr_all_lexed r)).
-Proof. exact linemode_same_tree. Qed.
+  front_parse conv false s = POk (mkPres (pr_tree r) [] false (pr_all_lexed r)).
+Proof. exact linemode_same_tree_exact. Qed.
 
 Definition continues (s : string) : bool :=
   match front_parse no_numbers true (src s) with
@@ -57,19 +59,23 @@ b"; "m = {a:
 b}"; "f = (a,b) => a+b; f(c)"]%string = true.
 Proof. vm_compute. reflexivity. Qed.
 
-(* (1), proved at the level of the parser for every token list and every fuel: a line-mode parse that
-   reports no error and asks for no continuation is reproduced, step for step, by the file-mode parse of
-   the same tokens with the end-of-line marker renamed to the end-of-file marker - same tree (fl renames
-   the type of end-marker tokens inside the tree; a clean tree contains none, which the harness checks by
-   comparing the trees exactly), no error, no continuation.  The converse is false by design: file mode
-   accepts an unterminated block at end of input, line mode asks for more.
-   The lexer half (Linemode_lex.v: the two lexer modes produce the same tokens up to the end marker when no
-   string is left open) composes with it into C15_linemode_same_tree above. *)
+(* (1), proved at the level of the parser for every token list whose end markers form a suffix (every
+   lexer output) and every fuel: a line-mode parse that reports no error and asks for no continuation is
+   reproduced by the file-mode parse of the same tokens with the end-of-line marker renamed to the
+   end-of-file marker - same tree, no error, no continuation. *)
 Theorem C15_linemode_parse_is_filemode_parse : forall conv fuel toks r,
+  closed (mkPtok (mkTok token_EOL []) false false) toks ->
   parse_program conv fuel token_EOL toks = POk r -> clean_result r = true ->
-  parse_program conv fuel token_EOF (map fp toks)
-  = POk (mkPres (map (option_map fnode) (pr_tree r)) [] false (pr_all_lexed r)).
-Proof. exact linemode_parse_sim. Qed.
+  parse_program conv fuel token_EOF (map fp toks) = POk (mkPres (pr_tree r) [] false (pr_all_lexed r)).
+Proof. exact linemode_parse_exact. Qed.
+
+(* the ingredient: a clean parse (either mode) stores no end-marker token in the tree *)
+Theorem C15_clean_tree_has_no_end_marker : forall conv fuel end_type toks r,
+  end_type = token_EOF \/ end_type = token_EOL ->
+  closed (mkPtok (mkTok end_type []) false false) toks ->
+  parse_program conv fuel end_type toks = POk r -> clean_result r = true ->
+  map (option_map fnode) (pr_tree r) = pr_tree r.
+Proof. exact clean_tree_fixed_by_renaming. Qed.
 
 (* non-vacuity: a multi-line complete program parses cleanly in line mode *)
 Example C15_clean_linemode_example :
@@ -79,4 +85,5 @@ Proof. vm_compute. reflexivity. Qed.
 
 Print Assumptions C15_linemode_same_tree.
 Print Assumptions C15_linemode_parse_is_filemode_parse.
+Print Assumptions C15_clean_tree_has_no_end_marker.
 Print Assumptions C15_open_prefixes_continue.
